@@ -41,8 +41,8 @@ def plan(tier, seed):
         shards += plan_graph_shards("B", n_max=6, n_min=6, k=2, parts=16)
     out = []
     for s in shards:
-        for naming in ("identity", "adversarial", "dunder"):
-            if naming == "dunder" and s["space"] != "A":
+        for naming in ("identity", "adversarial", "dunder", "dotlike"):
+            if naming in ("dunder", "dotlike") and s["space"] != "A":
                 continue  # modules called __init__ / __main__ (as in every scanned package): the complete space only
             out.append(dict(s, naming=naming, bound=s["bound"] + f" naming={naming}"))
     # architectures whose packages exist only because the hierarchy implies them (module_path below root_path):
@@ -308,8 +308,13 @@ def _conj(parts):
     return "PASS" if all(p == "PASS" for p in parts) else "FAIL"
 
 
+# a sibling of a package whose name equals a sub module's dotted name with another character at the dot
+# (r.a_a next to r.a.a): the bare name r.a.a used as a regex matches both, its escaped form only one
+NAMING_DOTLIKE = {"r": "r", "a": "a", "b": "a_a", "c": "aXa", "d": "d", "e": "e", "p": "p", "q": "q"}
+
+
 def _renamed(ns, I, naming):
-    m = NAMINGS[naming]
+    m = NAMING_DOTLIKE if naming == "dotlike" else NAMINGS[naming]
     if not m:
         return list(ns), list(I)
     return [rename(n, m) for n in ns], [(rename(a, m), rename(b, m)) for a, b in I]
